@@ -32,7 +32,7 @@ func init() {
 		f1 := rec(c11Encode(&o, 1, 0, 0, p1, 0))
 		f2 := rec(c11Encode(&o, 1, 1, 0, p2, 0))
 		sc := &vrt.Scenario{
-			Opt:      vrt.Options{Delay: true},
+			Opt:      vrt.Options{Delay: c.P("delay", "1") == "1"},
 			Classify: deadlockIs("garbage-without-effect: after the injected record the reader never got the second valid frame"),
 			Main: func() {
 				n := lens[vrt.Choose(len(lens), "len")]
@@ -52,9 +52,20 @@ func init() {
 				a, b := net.Pair("rec", false)
 				sesh := MakeSession(7, SessionConfig{Obfuscator: o, Valve: UNLIMITED_VALVE, MsgOnWireSizeLimit: prodLimit})
 				sesh.AddConnection(common.NewTLSConn(b))
-				a.Write(f1)
-				a.Write(rec(g))
-				a.Write(f2)
+				if c.PI("conns", 1) == 2 {
+					// the injected record comes first; the two valid frames then arrive on two connections and are
+					// handled by two receive loops at the same time
+					a2, b2 := net.Pair("rec2", false)
+					sesh.AddConnection(common.NewTLSConn(b2))
+					a.Write(rec(g))
+					quiesce()
+					a.Write(f1)
+					a2.Write(f2)
+				} else {
+					a.Write(f1)
+					a.Write(rec(g))
+					a.Write(f2)
+				}
 				conn, err := sesh.Accept()
 				if err != nil {
 					vrt.Fail("garbage-without-effect", "an injected %d-byte record (fill %d) between two valid frames: Accept failed: %v (session closed: %v, %q)", n, kind, err, sesh.IsClosed(), sesh.TerminalMsg())
